@@ -43,7 +43,7 @@ def prefixOperand (o : Op) (t : Tok F) : Option (Ast F) :=
   | .item (.number v nt) => some (.item (.number (Num.mul v (Num.ofInt (signOf o))) nt))
   | .var n => some (.prefixUnary o (.var n))
   | .item (.percent p) => some (.prefixUnary o (.item (.percent p)))
-  | .item (.money v c) => some (.prefixUnary o (.prefixUnary o (.item (.money v c))))
+  | .item (.money v c) => some (.prefixUnary o (.item (.money v c)))
   | _ => none
 
 def Op.isSign (o : Op) : Bool := o = .minus || o = .plus
